@@ -52,6 +52,9 @@ def slim(n, cur_line=0):
     if t:
         o['ty'] = t.get('desugaredQualType', t.get('qualType'))
         o['qty'] = t.get('qualType')
+    at = n.get('argType')
+    if at:
+        o['argType'] = at.get('desugaredQualType', at.get('qualType'))
     rd = n.get('referencedDecl')
     if rd:
         o['ref'] = rd.get('name')
@@ -95,7 +98,7 @@ def load_tu(cfile, repo=None, defines=()):
     [param type strings], 'src': source text, 'path': path}"""
     repo = repo or REPO
     path = os.path.join(repo, 'src/C', cfile)
-    key = _hash(path) + ''.join(defines) + 'slim-v2'
+    key = _hash(path) + ''.join(defines) + 'slim-v3'
     os.makedirs(CACHE, exist_ok=True)
     cp = os.path.join(CACHE, '%s.%s.pkl' % (cfile, hashlib.sha1(
         key.encode()).hexdigest()[:16]))
